@@ -17,6 +17,7 @@ PE, KN = 'crysp/utils/perms.py', 'crysp/utils/knapsack.py'
 
 
 def run(ctx):
+    integrity(ctx, ['crysp/utils/knapsack.py', 'crysp/utils/perms.py'])
     import ast
     ctx.rule('C20-R2 algorithm terms')
     cmp_many(ctx, PE, [('permutk', S.PERMUTK), ('nextperm', S.NEXTPERM), ('combink', S.COMBINK)])
